@@ -23,6 +23,8 @@ def levels(tier):
             {"name": "n3", "shapes": [[1, 2, 2]], "n": 3, "alphabet": ["we", "delwe", "addprefix"]},
             {"name": "refused", "shapes": [[1, 2, 2]], "n": 2, "prelude": [["we", [[1, 1], [2, 2]]]],
              "alphabet": ["we", "delbad", "deldup", "rmforeign"], "we_two_prefixes": True},
+            {"name": "variants", "shapes": [[1, 2, 2]], "n": 1, "prelude": [["we", [[1, 1], [2, 2]]], ["we", [[0, 1]]]],
+             "alphabet": ["delwe", "rmprefix", "moveprefix"], "api_variants": True},
             {"name": "auto-links", "typed": [{"hosts": 2, "paths": 1}, {"hosts": 2, "paths": 1, "scheme": None}], "default": "domain",
              "anchored": (0, 3, "path1"), "n": 1, "alphabet": ["links", "page"], "links_batch": 1},
             {"name": "auto-n2", "typed": TPOOL, "default": "domain", "anchored": (1, 3, "path1"), "n": 2, "alphabet": ["we", "page"],
@@ -34,6 +36,7 @@ def levels(tier):
          "alphabet": ["we", "addprefix", "delbad", "deldup", "rmforeign", "delwe"]},
         {"name": "refused-n3", "shapes": [[1, 2, 2]], "n": 3, "prelude": [["we", [[1, 1], [2, 2]]]], "alphabet": ["delbad", "deldup", "addprefix"]},
         {"name": "n3-wide", "shapes": [[1, 2, 3]], "n": 3, "alphabet": ["we", "delwe", "addprefix", "rmprefix", "moveprefix"]},
+        {"name": "variants-n3", "shapes": [[1, 2, 2]], "n": 3, "alphabet": ["we", "delwe", "rmprefix", "moveprefix"], "api_variants": True},
         {"name": "n4", "shapes": [[1, 2, 2]], "n": 4, "alphabet": ["we", "delwe", "addprefix"]},
         {"name": "auto-n3", "typed": TPOOL, "default": "domain", "anchored": (1, 3, "path1"), "n": 3, "alphabet": ["we", "page", "delwe"], "every_step": True},
     ]
